@@ -51,7 +51,11 @@ Canonical(q) ==
     /\ (q # body => body # <<48>>)
 (* spellings Python's int() also reads (padding, sign, underscores, leading zeros, non-ASCII *)
 (* digits): C02 says "integers", so these may be accepted with their value or rejected      *)
+(* an integer too long for the implementation language to parse (CPython refuses more than 4300 digits) *)
+TooLong(q) == Len(q) > 4000
 Gray(q) ==
+  \/ (Canonical(q) /\ TooLong(q))
+  \/
     /\ ~Canonical(q)
     /\ \E i \in 1..Len(q) : IsDigit(q[i]) \/ q[i] > 127
     /\ \A i \in 1..Len(q) : IsDigit(q[i]) \/ q[i] \in {MINUS, PLUS, UNDERSCORE} \/ IsSpace(q[i]) \/ q[i] > 127
